@@ -1,7 +1,7 @@
 (* C07/Properties.v — property theorems only.  Model: C07/Model.v (the code after fix commits
    e89b171, 07b228c; with the known finding F-C07a, whose fix 311264d was reverted by 0819a3f). *)
 From Coq Require Import String Lia.
-From RM Require Import C06.Model C06.Proofs C06.Proofs5 C06.Driver C07.Model C07.Proofs C07.Proofs2 C07.Proofs3 C07.Proofs4 C07.Text C07.Proofs5 C07.Walker C07.Proofs6 C07.Proofs7 C07.Proofs11 C07.Proofs13 C07.Proofs8 C07.Proofs9 C07.Proofs10 C07.Proofs12 Gen.C07WinEval C07.Source C07.Proofs14 C07.Proofs15 C07.Proofs16 Gen.C07WinLine C07.Proofs17 C07.Proofs18 C07.WalkerFd C07.Proofs19 C07.Proofs20 C07.Driver C07.Proofs21 C07.Proofs22 C07.Proofs23.
+From RM Require Import C06.Model C06.Proofs C06.Proofs5 C06.Driver C07.Model C07.Proofs C07.Proofs2 C07.Proofs3 C07.Proofs4 C07.Text C07.Proofs5 C07.Walker C07.Proofs6 C07.Proofs7 C07.Proofs11 C07.Proofs13 C07.Proofs8 C07.Proofs9 C07.Proofs10 C07.Proofs12 Gen.C07WinEval C07.Source C07.Proofs14 C07.Proofs15 C07.Proofs16 Gen.C07WinLine C07.Proofs17 C07.Proofs18 C07.WalkerFd C07.Proofs19 C07.Proofs20 C07.Driver C07.Proofs21 C07.Proofs22 C07.Proofs23 C07.Proofs24.
 From RM Require C09.Grammar.
 From RM Require C08.Model C08.Proofs C08.WinModel C08.WinProofs C08.Tie.
 Open Scope Z_scope.
@@ -983,3 +983,35 @@ Theorem c07_table_is_source_table :
     forall x, C08.Model.rm_get (mapv (Proofs23.g l) t) x = option_map (Proofs23.g l) (C08.Model.rm_get t x).
 Proof. exact table_is_source_table. Qed.
 Print Assumptions c07_table_is_source_table.
+
+(* The table of an ADDRESS-SORTED file, completely (parser.rs's own example in general): records of one kind with strictly
+   increasing addresses, each with a memory range, any overlaps between neighbours or further — every record ends where
+   it says or just before the next one starts, whichever comes first (clip_list); nothing is dropped; the clipped
+   records are pairwise disjoint; the table is the table of the clipped list, and a lookup returns the clipped record
+   whose range contains the address (table_spec_lookup: containment), else nothing. *)
+Theorem c07_table_ascending :
+  forall l,
+    Forall has_range l -> ascending l ->
+    win_table l = win_table (clip_list l) /\
+    disjoint_ranges (keep (clip_list l)) /\
+    exists t, win_table l = Ret t /\ forall x, C08.Model.rm_get t x = table_spec_lookup (clip_list l) x.
+Proof. exact table_ascending. Qed.
+Print Assumptions c07_table_ascending.
+
+(* parser.rs: "addr: 0, len: 10 / addr: 1, len: 9 / addr: 4, len: 6 ... we need to fixup the lengths like so:
+   addr: 0, len: 1 / addr: 1, len: 3 / addr: 4, len: 6" *)
+Example c07_nonvacuous_table_ascending :
+  let A := mkWin 0 10 0 0 0 0 4 0 (AllocatesBasePointer false) in
+  let B := mkWin 1 9 0 0 0 0 8 0 (AllocatesBasePointer false) in
+  let C := mkWin 4 6 0 0 0 0 12 0 (AllocatesBasePointer true) in
+  Forall has_range [A; B; C] /\ ascending [A; B; C] /\
+  clip_list [A; B; C] = [set_size A 1; set_size B 3; C] /\
+  table_spec_lookup (clip_list [A; B; C]) 0 = Some (set_size A 1) /\
+  table_spec_lookup (clip_list [A; B; C]) 3 = Some (set_size B 3) /\
+  table_spec_lookup (clip_list [A; B; C]) 9 = Some C /\
+  table_spec_lookup (clip_list [A; B; C]) 10 = None.
+Proof.
+  cbv zeta. split.
+  { repeat constructor; cbn; lia. }
+  split; [cbn; lia|]. split; [reflexivity|]. vm_compute. repeat split; reflexivity.
+Qed.
